@@ -65,6 +65,9 @@ T = {
  "C20": ("TLC-enumerated layout and syntax lattice of robot descriptions with symbolic origin vectors (Gen_Urdf, invariant WellFormed) rendered to XML and replayed into from_urdf; fault variants",
          "The mapping from OPW parameters to joint origin components is the spec's; TLC enumerates every supported layout x limit syntax x joint order x nesting x naming x duplicates; the harness fills in values, extracts and compares parameters, signs and limits, checks the three views and that the resulting solver finds in-limit configurations (joints without limits are unconstrained); broken descriptions must return Err.",
          "Name decorations restricted to the documented forms; quick tier replays a seeded sample of 2000 of the 12672 behaviours, thorough all.", "4/C20"),
+ "C13": ("TLC model checking of the dual-tree RRT-connect algorithm (spec/Rrt.tla: LoopHead, Sample+extend, Connect, swap, path assembly, cancellation) + replay of every complete model behaviour into the real dual_rrt_connect with scripted closures (hook H2) + trace validation of real plan_rrt runs (Trace_Rrt)",
+         "PathOK, CancelOK and TreesFree hold in every reachable state of the bounded model (all sample sequences, blocked cells, cancellation points); for every sample script the real implementation's sequence of freeness queries and assembled path must be a behaviour of the model; real planner runs on robots with shape are judged node by node (collision verdict, step <= 3 steps, limits by TLC's OnArc, exact endpoints, cancellation).",
+         "1-D integer world makes the extend arithmetic exact in f64; kd-tree tie order is nondeterministic in the model; thread_rng of the real planner is sampled.", "4/C13"),
 }
 
 REASON_TODO = "check not built yet in this round (planned, see DESIGN.md section 9); not claimed until it runs"
